@@ -1,14 +1,6 @@
-"""Per-property configuration of ./check."""
+from .common import COMMON_TB
 
-COMMON_TB = [
-    "Coq 8.16.1 kernel (coqc, full .vo builds; guard/positivity/universe checks on; no -type-in-type, no -impredicative-set); native_compute is not used, vm_compute is used for finite facts",
-    "Extraction: ExtrOcamlBasic + ExtrOcamlZBigInt (bool/option/unit/list/prod/sumbool -> OCaml natives; positive/N/Z -> zarith Z.t with the library's Extract Constant directives for add, sub, mul, div, modulo, compare, min/max, pred/succ, abs, opp, of_nat/to_nat...); no hand-written Extract Constant; OCaml 4.13.1 + zarith 1.12",
-    "Correspondence machinery: Rust harness /verif/harness (generators, executors, oracles), OCaml driver line protocol, lib/framework.py (diff, evidence)",
-    "Hand-written Gallina models: the theorems are about the models; the Rust code is tied to them only by the correspondence run of this check",
-]
-
-PROPS = {
-    "C11": dict(
+CFG = dict(
         coq="Properties/C11.v",
         areas=["delta"],
         level="proof",
@@ -19,5 +11,4 @@ PROPS = {
              "byte equality with liblzma's filter. distinct_nontrivial = distinct command lines whose output is non-empty",
         trusted_base=COMMON_TB + ["liblzma 5.x (liblzma-sys 0.4.8, static) as the reference filter implementation in the oracle"],
         assumptions=["the inner reader/writer of the filter behaves as a perfect source/sink (fault behaviour is C05's business)"],
-    ),
-}
+    )
